@@ -33,6 +33,7 @@ import (
 	"seehuhn.de/go/pdf"
 	"seehuhn.de/go/pdf/font"
 	"seehuhn.de/go/pdf/font/charcode"
+	"seehuhn.de/go/pdf/font/cmap"
 	"seehuhn.de/go/pdf/font/dict"
 	"seehuhn.de/go/pdf/font/encoding"
 	"seehuhn.de/go/pdf/font/encoding/simpleenc"
@@ -385,6 +386,23 @@ func (f *Simple) makeDict() (*dict.TrueType, error) {
 	// descriptor's FontName, which for a subset carry the tag
 	subsetFont.FontName = subset.Join(subsetTag, postScriptName)
 
+	toUnicode := f.Simple.ToUnicode()
+	if isSymbolic {
+		// A symbolic font is written with the built-in encoding: the file
+		// carries no glyph names, so no text is implied by a name and every
+		// text has to be listed.
+		m := make(map[charcode.Code]string)
+		for c, info := range f.Simple.MappedCodes() {
+			if info.Text != "" {
+				m[charcode.Code(c)] = info.Text
+			}
+		}
+		toUnicode = nil
+		if len(m) > 0 {
+			toUnicode, _ = cmap.NewToUnicodeFile(charcode.Simple, m)
+		}
+	}
+
 	dict := &dict.TrueType{
 		PostScriptName: postScriptName,
 		SubsetTag:      subsetTag,
@@ -392,7 +410,7 @@ func (f *Simple) makeDict() (*dict.TrueType, error) {
 		Descriptor:     fd,
 		Encoding:       dictEnc,
 		FontFile:       sfntglyphs.ToStream(subsetFont, glyphdata.TrueType),
-		ToUnicode:      f.Simple.ToUnicode(),
+		ToUnicode:      toUnicode,
 	}
 	for c, info := range f.Simple.MappedCodes() {
 		dict.Width[c] = info.Width
